@@ -246,7 +246,8 @@ def exercise(tdgl, item, tmp=None):
         ev.append(eq_event(obj, o2, other))
     for form, t in item.get("calls", ORIG_CALLS):
         ev.append(call_event(tdgl, obj, "orig", form, t))
-    ev.append(clear_event(tdgl, obj, "orig"))
+    if item.get("clear", True):
+        ev.append(clear_event(tdgl, obj, "orig"))
     for method in item.get("pickles", ["pickle", "cloudpickle"]):
         mod = pickle if method == "pickle" else cloudpickle
         try:
@@ -272,7 +273,8 @@ def exercise(tdgl, item, tmp=None):
         ev.append({"ev": "unpickle", "ok": True, "cls": "", "td": ctd, "eq": ceq})
         for form, t in item.get("copy_calls", COPY_CALLS):
             ev.append(call_event(tdgl, cp, "copy", form, t))
-        ev.append(clear_event(tdgl, cp, "copy"))
+        if item.get("clear", True):
+            ev.append(clear_event(tdgl, cp, "copy"))
     return tr
 
 
@@ -317,19 +319,37 @@ def solve_tree(tdgl, args, tmp):
 # ---------------------------------------------------------------- TLC side
 
 
-def constants(max_level, mod, seed, mech):
-    lines = ["CONSTANTS", f" MaxLevel = {max_level}", f" SampleMod = {mod}", f" SampleSeed = {seed}"]
+def constants(max_level, mod, seed, mech, deep=9973):
+    lines = ["CONSTANTS", f" MaxLevel = {max_level}", f" SampleMod = {mod}", f" DeepMod = {deep}", f" SampleSeed = {seed}"]
     lines += [f" {k} = {'TRUE' if v else 'FALSE'}" for k, v in mech.items()]
     return "\n".join(lines) + "\n"
 
 
-def model_cfg(max_level, mod, seed, mech, invariants, spec="Spec"):
-    return (constants(max_level, mod, seed, mech) + f"SPECIFICATION {spec}\n"
+def model_cfg(max_level, mod, seed, mech, invariants, spec="Spec", deep=9973):
+    return (constants(max_level, mod, seed % 9973, mech, deep) + f"SPECIFICATION {spec}\n"
             + "".join(f"INVARIANT {i}\n" for i in invariants) + "CHECK_DEADLOCK FALSE\n")
 
 
 def trace_cfg(mech=MECH, invariants=INVARIANTS):
     return model_cfg(9, 1, 0, mech, ["Accepted"] + [i for i in invariants if i != "TypeOK"], spec="TSpec")
+
+
+def design_canaries(ctx, cases, timeout=600, module="ParamAlg"):
+    """cases: list of (label, cfg_text, invariant that MUST be violated[, module]).  Run concurrently (TLC -workers 2 each)."""
+    def one(n, label, cfg, inv, mod=module):
+        return label, inv, core.run_tlc(mod, cfg, ctx.tmp / f"tlc_canary_{mod}_{n}", workers=2, timeout=timeout)
+
+    with cf.ThreadPoolExecutor(len(cases)) as ex:
+        futs = [ex.submit(one, n, *c) for n, c in enumerate(cases)]
+        for f in futs:
+            label, inv, r = f.result()
+            ctx.cov["models"].append({"model": label, "distinct_states": r.distinct, "states_generated": r.generated,
+                                      "depth": r.depth, "wall_s": round(r.wall, 2), "violated": r.violated,
+                                      "expected_violation": inv})
+            if inv not in r.violated:
+                raise core.MachineryFailure(f"{label}: expected TLC to report {inv}, got {r.violated} "
+                                            f"errors={r.errors[:3]}\n{r.out[-1500:]}")
+            ctx.cov["canaries_rejected"] += 1
 
 
 def parse_export(r):
@@ -408,7 +428,7 @@ def shape_class(tr, far):
     return f"{what}{'/' + who if who else ''}:{cls or 'mismatch'}"
 
 
-def report_rejected(ctx, pid, traces, norm, accepted, what, max_diag=6):
+def report_rejected(ctx, pid, traces, norm, accepted, what, max_diag=8):
     """Every rejected trace is a violation (verdict sources 2/3); a few per class are diagnosed with TLC."""
     rejected = [n for n in range(len(norm)) if n not in accepted]
     per_class = {}
@@ -417,7 +437,8 @@ def report_rejected(ctx, pid, traces, norm, accepted, what, max_diag=6):
     for n in rejected:
         tr = traces[n]
         # cheap pre-classification by the first event that carries an exception (only to limit TLC diagnoses)
-        pre = next((f"{e['ev']}:{e.get('cls')}" for e in tr["ev"] if e.get("cls")), "values")
+        pre = next((f"{e['ev']}{'/' + e['who'] if e.get('who') else ''}:{e.get('cls') or 'slots-lost'}" for e in tr["ev"]
+                    if e.get("cls") or (e["ev"] == "unpickle" and (e["td"] == "unset" or e["eq"] != "T"))), "values")
         if per_class.get(pre, 0) >= 2 or diagnosed >= max_diag:
             per_class[pre] = per_class.get(pre, 0) + 1
             continue
